@@ -124,9 +124,13 @@ func checkLists(e error, m *tm.Node) string {
 	return ""
 }
 
+// c19Other is "another error" with every kind of list entry.
+var c19Other = errors.WithTelemetry(errors.WithIssueLink(errors.WithDetail(errors.WithHint(errors.WithHint(errors.New("other"), "other hint 1"), "other hint 2"), "other detail"),
+	errors.IssueLink{IssueURL: "https://other/1", Detail: "other link detail"}), "other.key")
+
 // c19Ops are the constructors that contribute to (or interrupt) the lists.
 var c19Ops = []string{"WithHint", "WithHintf", "WithDetail", "WithIssueLink", "WithTelemetry", "WithTelemetry2",
-	"WithContextTags", "WithContextTags_int2", "WithContextTags_strint", "WithContextTags_twice", "WithIssueLink_detailonly", "WithIssueLink_urlonly", "WithAssertionFailure", "Wrap", "Handled", "WithSecondaryError", "Join2", "ut.UnwrapW", "WithStack"}
+	"WithContextTags", "WithContextTags_int2", "WithContextTags_strint", "WithContextTags_twice", "WithIssueLink_detailonly", "WithIssueLink_urlonly", "ut.CauseW", "WithAssertionFailure", "Wrap", "Handled", "WithSecondaryError", "Join2", "ut.UnwrapW", "WithStack"}
 var c19Leaves = []string{"GoNew", "Unimplemented", "Unimplementedf_nolink", "AssertionFailedf", "New"}
 
 // rawStrings assigns the small raw alphabet (no tokens, so that texts can
@@ -190,6 +194,19 @@ func runC19(c *core.Ctx, r *core.Result) {
 			d, _ := tm.HopK(e)
 			if f := checkLists(d, m); f != "" {
 				return fail("hop:"+keyOf(f), "after one hop: %s", textOf(f))
+			}
+			// the lists belong to the caller: asking again (for this or another
+			// error) does not change a list handed out before
+			h1, d1, l1, k1 := errors.GetAllHints(e), errors.GetAllDetails(e), errors.GetAllIssueLinks(e), errors.GetTelemetryKeys(e)
+			before := fmt.Sprintf("%q|%q|%q|%q", h1, d1, l1, k1)
+			errors.GetAllHints(c19Other)
+			errors.FlattenHints(c19Other)
+			errors.GetAllDetails(c19Other)
+			errors.GetAllIssueLinks(c19Other)
+			errors.GetTelemetryKeys(c19Other)
+			errors.GetAllHints(d)
+			if after := fmt.Sprintf("%q|%q|%q|%q", h1, d1, l1, k1); after != before {
+				return fail("result-clobbered", "a list returned by GetAllHints/GetAllDetails/GetAllIssueLinks/GetTelemetryKeys changed after the same accessors were called for another error: %s", short(tm.FirstDiffStr(before, after)))
 			}
 			return ""
 		})
